@@ -364,3 +364,20 @@ pub fn train_case(g: TrainGenCfg) -> impl Strategy<Value = TrainCase> {
             }
         })
 }
+
+/// For checks that write the corpus to files: appends to some sentences a last token that is a
+/// single Unicode white-space character other than the ASCII space (U+3000, U+00A0, U+2003, tab,
+/// U+0085 ...), tagged like any other token. Such tokens are ordinary text for the library;
+/// code that "tidies" lines with trim() drops them.
+pub fn with_whitespace_tokens(mut c: TrainCase, salt: u16) -> TrainCase {
+    const WS: [char; 8] = ['\u{3000}', '\u{a0}', '\u{2003}', '\t', '\u{85}', '\u{2028}', '\u{b}', '\u{1680}'];
+    for (k, r) in c.corpus.iter_mut().chain(c.tag_dict.iter_mut()).enumerate() {
+        if (k + salt as usize) % 3 != 0 || r.chars.is_empty() {
+            continue;
+        }
+        r.chars.push(WS[(k + salt as usize / 3) % WS.len()]);
+        r.labels.push(WB);
+        r.tags.push((0..r.n_tags).map(|j| Some(format!("ws{j}"))).collect());
+    }
+    c
+}
